@@ -49,7 +49,19 @@ impl Secrets {
             2 => "\u{1}x",
             _ => "",
         };
-        let s = format!("CANARY-{}-{}-s3cr3t{tail}", self.case_no, self.serial);
+        // and in the shapes real credentials come in: diagnostics that guess what a value "looks
+        // like" (a variable name, a URL, a token family) treat some shapes differently
+        let (c, n) = (self.case_no, self.serial);
+        let body = match rng.below(8) {
+            0 => format!("CANARY_{c}_{n}_S3CR3T"),               // like an environment variable name
+            1 => format!("CANARY{c}X{n}ABCDEF0123456789"),        // upper-case alphanumeric (hex / ULID-like)
+            2 => format!("sk-CANARY-{c}-{n}-s3cr3t"),             // vendor-prefixed
+            3 => format!("eyJhbGciOi.CANARY{c}x{n}.c2lnbmF0dXJl"), // three dot-separated parts
+            4 => format!("https://CANARY-{c}-{n}.example/key"),   // URL-shaped
+            5 => format!("CANARY {c} {n} with spaces"),
+            _ => format!("CANARY-{c}-{n}-s3cr3t"),
+        };
+        let s = format!("{body}{tail}");
         self.vals.push(s.clone());
         (s, self.vals.len() - 1)
     }
